@@ -36,7 +36,7 @@ fn tuple_kinds() -> Vec<(&'static str, Kind)> {
 }
 
 // identifiers with `_` directly before a digit are left out: whether that digit run is "split off" once more is not settled by the statement
-const IDENT_POOL: [&str; 10] = ["Hello2You", "HTTPServer", "A1", "Utf8To16", "X_y", "Ab2c3", "V1", "Café2", "Ünï3x", "r#try"];
+const IDENT_POOL: [&str; 12] = ["Hello2You", "HTTPServer", "A1", "Utf8To16", "X_y", "Ab2c3", "V1", "Café2", "Ünï3x", "r#try", "RParen", "R_x"];
 
 fn alphabet(n: usize) -> Vec<Dev> {
     let mut d: Vec<Dev> = Vec::new();
